@@ -1,7 +1,7 @@
 (* FloatValueApprox on actual binary64 arithmetic (FloatB64.v): reflexive and symmetric on EVERY
    binary64 input; its meaning over the reals whenever x-y and fraction*min(|x|,|y|) do not round;
    and equal to the exact-rational model of Tolerance.v on small dyadic values.
-   Axioms: only those of the standard library's real numbers, which Flocq uses. *)
+   Depends only on the standard library's classical real numbers, which Flocq uses. *)
 From Coq Require Import ZArith QArith Qabs Qminmax Qreals Reals Bool Lia Lra.
 From Flocq Require Import Core.Core IEEE754.BinarySingleNaN.
 From SC Require Import Base.Prelude Cmp.Cmp Cmp.Tolerance Cmp.Spec Cmp.LogicProofs Cmp.ToleranceProofs Cmp.FloatB64.
@@ -416,9 +416,16 @@ Proof.
     rewrite orb_false_r. rewrite arith_fin. destruct (Qeq_bool p q); reflexivity.
 Qed.
 
+(* hence, with a non-negative margin, it accepts exactly the pairs within the stated tolerance *)
+Theorem b64_accepts_iff_within : forall fr mg a b,
+  small_dyadic fr = true -> small_dyadic mg = true -> fl_small a = true -> fl_small b = true ->
+  Qle_bool 0 mg = true -> fl_approx_b64 fr mg a b = ideal_float fr mg a b.
+Proof.
+  intros fr mg a b Hf Hm Ha Hb H0. rewrite b64_approx_exact by assumption.
+  apply float_accepts_iff_within. exact H0.
+Qed.
+
 (* the value comparers agree wherever the guard holds *)
-Definition val_small (x : cval) : bool :=
-  match x with CS (CF32 a) | CS (CF64 a) => fl_small a | _ => true end.
 Theorem float_approx_b64_exact : forall fr mg x y,
   small_dyadic fr = true -> small_dyadic mg = true -> val_small x = true -> val_small y = true ->
   float_approx_b64 fr mg x y = float_approx fr mg x y.
@@ -519,6 +526,9 @@ Proof.
 Qed.
 
 (* ---------- evaluation: the model runs, special values and rounding behave as in Go ---------- *)
+(* Caution: never [vm_compute] an equation whose sides are FINITE binary64 values: [B754_finite] carries
+   a proof of boundedness and the virtual machine would normalise that proof (minutes).  Compare
+   [B2SF] images, or booleans, instead. *)
 Definition t_one : binary64 := b64_normalize 1 0.
 Definition t_zero : binary64 := b64_zero false.
 Definition t_01 : binary64 := b64_normalize 7205759403792794 (-56).   (* 0.1 = 0x3FB999999999999A *)
@@ -554,7 +564,7 @@ Theorem b64_examples :
   /\ go_max (b64_zero true) t_zero = t_zero /\ go_max t_zero (b64_zero true) = t_zero
   /\ go_min (b64_inf true) b64_nan = b64_inf true /\ go_min b64_nan (b64_inf false) = b64_nan
   /\ go_max b64_nan (b64_inf false) = b64_inf false /\ go_max (b64_inf true) b64_nan = b64_nan
-  /\ b64_of_fl (FFin (1 # 10)) = t_01                      (* non-dyadic input: here the division rounds to 0.1 *)
+  /\ B2SF (b64_of_fl (FFin (1 # 10))) = B2SF t_01          (* non-dyadic input: here the division rounds to 0.1 *)
   /\ fl_approx_b64 0 (1 # 2) (FFin 1) (FFin (5 # 4)) = true
   /\ fl_approx_b64 (1 # 8) 0 (FFin 1) (FFin (5 # 4)) = false
   /\ fl_approx_b64 (1 # 4) 0 (FFin 1) (FFin (5 # 4)) = true.
@@ -575,6 +585,7 @@ Print Assumptions b64_approx_refl.
 Print Assumptions b64_approx_sym.
 Print Assumptions b64_approx_real.
 Print Assumptions b64_approx_exact.
+Print Assumptions b64_accepts_iff_within.
 Print Assumptions float_approx_b64_exact.
 Print Assumptions float_b64_symmetric.
 Print Assumptions float_b64_reflexive.
